@@ -130,6 +130,13 @@ def _convert_internal_expression_to_pddl(
     if isinstance(expression, Pow) and expression.exp > 1:
         return _recursive_pow_expression_to_pddl(expression, symbols_map)
 
+    if isinstance(expression, Pow) and expression.exp.is_Integer and expression.exp < -1:
+        # x^-n is printed as (/ 1 (* x (* x ...))): PDDL has no power operator.
+        positive_power = _recursive_pow_expression_to_pddl(
+            Pow(expression.base, -expression.exp), symbols_map
+        )
+        return f"(/ 1 {positive_power})"
+
     # the expression is a binary expression with multiple arguments
     components = []
     for i in range(len(expression.args)):
